@@ -16,12 +16,13 @@
      Handoff   the unbuffered send `ingestedLogs <- lastLogID` meets the persister's receive
    persister (manager.go:startPipeline, `for lastLogID := range subscription`)
      Persist      StorePipelineState(pipeline.ID, v) of the value it holds
-     LateAccept   (exporter side) the `go func(){ exporter.Accept(...) }()` of a handler that has halted
-               in the meantime (Run took the stopChannel case of the select) completes: the exporter
-               receives and acknowledges a page nobody waits for any more
      LatePersist  the same call made by the persister of an ALREADY HALTED handler: Run returning
                does not wait for it (close(subscription) only ends the range loop after the call in
                flight), and neither stopPipeline nor pipelinesWaitGroup covers that goroutine
+   exporter
+     LateAccept   (exporter side) the `go func(){ exporter.Accept(...) }()` of a handler that has halted
+               in the meantime (Run took the stopChannel case of the select) completes: the exporter
+               receives and acknowledges a page nobody waits for any more
    manager (manager.go; m.mu is held from the Req to the end of the operation, so manager
             operations are refused (= would block) while one is in progress)
      Start     StartPipeline / synchronizePipelines (Run at boot, periodic, after restart):
